@@ -28,8 +28,28 @@ def parseArr1 (body : String) : Option PV :=
 def parseArr2 (body : String) : Option PV :=
   if body.isEmpty then some (.arr []) else ((body.splitOn "|").mapM parseArr1).map PV.arr
 
+/-- a list `L[a,b,…]` of atoms, or an atom. -/
+def parseFlat (s : String) : Option PV :=
+  if s.startsWith "L[" && s.endsWith "]" then
+    (parseItems ((s.drop 2).dropEnd 1).toString).map PV.list
+  else parseAtom s
+
+/-- one `k:v` entry. -/
+def parseEntry (kv : String) : Option (PV × PV) :=
+  match kv.splitOn ":" with
+  | [k, v] => match parseAtom k, parseFlat v with
+              | some k, some v => some (k, v)
+              | _, _ => Option.none
+  | _ => Option.none
+
+/-- `D{k:v;k:v;…}` — keys are atoms, values atoms or flat lists. -/
+def parseDict (body : String) : Option PV :=
+  if body.isEmpty then some (.dict [] []) else
+  ((body.splitOn ";").mapM parseEntry).map fun (kvs : List (PV × PV)) => PV.dict (kvs.map (·.1)) (kvs.map (·.2))
+
 def parsePV (s : String) : Option PV :=
-  if s.startsWith "A[" && s.endsWith "]" then parseArr1 ((s.drop 2).dropEnd 1).toString
+  if s.startsWith "D{" && s.endsWith "}" then parseDict ((s.drop 2).dropEnd 1).toString
+  else if s.startsWith "A[" && s.endsWith "]" then parseArr1 ((s.drop 2).dropEnd 1).toString
   else if s.startsWith "M[" && s.endsWith "]" then parseArr2 ((s.drop 2).dropEnd 1).toString
   else
   if s.startsWith "L[" && s.endsWith "]" then
@@ -49,6 +69,6 @@ partial def showPV : PV → String
   | .tup l => "T(" ++ ",".intercalate (l.map showPV) ++ ")"
   | .arr l => "A[" ++ ";".intercalate (l.map showPV) ++ "]"
   | .set l => "S{" ++ ",".intercalate (l.map showPV) ++ "}"
-  | .dict ks vs => "D{" ++ ",".intercalate ((ks.zip vs).map fun kv => showPV kv.1 ++ ":" ++ showPV kv.2) ++ "}"
+  | .dict ks vs => "D{" ++ ";".intercalate ((ks.zip vs).map fun kv => showPV kv.1 ++ ":" ++ showPV kv.2) ++ "}"
 
 end Dsw.Py
